@@ -24,7 +24,7 @@ fn parse_label(s: &str) -> Lbl {
 }
 
 fn parse_prior(s: &str) -> Prior {
-    for p in PRIORS {
+    for p in ALL_PRIORS {
         if format!("{:?}", p) == s {
             return p;
         }
